@@ -158,7 +158,14 @@ func genStack(r *lib.Rand, kind string) StackIn {
 	if r.Chance(30) {
 		size = r.Range(1, 40)
 	}
+	if kind == "auto" && r.Chance(2) {
+		// more than 65536 segments (the segment index must not be a 16-bit number)
+		size = []int{524288, 524289, 524296, 600000}[r.Intn(4)]
+	}
 	c := capOf(kind, size)
+	if c > 48 {
+		c = 48 // targets of the walk; the real capacity is far away
+	}
 	n := r.Range(10, 70)
 	var ops []SOp
 	depth := 0
